@@ -38,6 +38,7 @@ type Frame struct {
 	parent   *Frame
 	label    string
 	quantDepth int
+	pointwise  map[string][]Term // frame clause in effect for the contract being applied
 }
 
 type loopInfo struct {
@@ -296,7 +297,7 @@ func (f *Frame) checkPtrMerge(t types.Type, edgeVals [][]Term, res []Term) {
 	first := shapes[0]
 	same := true
 	for i, sh := range shapes {
-		if sh == nil || first == nil || sh.Kind != first.Kind || sh.Cell != first.Cell || sh.Off != first.Off || !types.Identical(sh.Root, first.Root) || sh.Ref.S != first.Ref.S || sh.Idx.S != first.Idx.S {
+		if sh == nil || first == nil || sh.Kind != first.Kind || sh.Cell != first.Cell || sh.Off != first.Off || !types.Identical(sh.Root, first.Root) || sh.Ref.S != first.Ref.S || sh.Idx.S != first.Idx.S || sh.View.S != first.View.S {
 			same = false
 		}
 		_ = i
